@@ -553,6 +553,44 @@ def decl_text(repo, fi, subst):
     return sorted(out)
 
 
+def check_trim_set_reaches_strip(repo, rep):
+    """R19f: trim / trimLeft / trimRight / norm / isEmpty share one notion
+    of "characters to trim": each hands its `chars` parameter, as it is, to
+    str.strip / lstrip / rstrip (null meaning python's own notion of
+    whitespace).  A function that replaces the default by a set of its own
+    (string.whitespace is ASCII only) or trims by another method disagrees
+    with its siblings on non-ASCII blanks."""
+    mod = repo.module(S)
+    n = 0
+    for fi in mod.functions.values():
+        if fi.parent_func is not None or 'chars' not in fi.params():
+            continue
+        n += 1
+        rebound = [x for x in ast.walk(fi.node) if isinstance(x, ast.Name)
+                   and x.id == 'chars' and isinstance(x.ctx, ast.Store)]
+        uses = [x for x in ast.walk(fi.node) if isinstance(x, ast.Name) and
+                x.id == 'chars' and isinstance(x.ctx, ast.Load)]
+        bad = list(rebound)
+        strips = 0
+        for u in uses:
+            par = getattr(u, '_parent', None)
+            if isinstance(par, ast.Call) and isinstance(
+                    par.func, ast.Attribute) and par.func.attr in (
+                    'strip', 'lstrip', 'rstrip') and par.args == [u] and \
+                    not par.keywords:
+                strips += 1
+            else:
+                bad.append(u)
+        rep.ob('R19f', fi.key + '/chars-reaches-strip', not bad and strips,
+               '%s must hand `chars` unchanged to str.strip/lstrip/rstrip '
+               '(null = python\'s whitespace); it %s' % (
+                   fi.name, ('uses it as `%s`' % model.norm(
+                       model.enclosing(bad[0], ast.stmt) or bad[0]).split(
+                       '\n')[0][:80]) if bad else 'never does'),
+               loc=mod.loc(bad[0] if bad else fi.node))
+    rep.floor('functions with a trim set', n, 4)
+
+
 def check_siblings(repo, rep):
     n = 0
     for modname, a, b, subst, note in SIBLINGS:
@@ -790,6 +828,9 @@ def run(repo, rep):
     n = check_stdlib_names(repo, rep)
     check_match_api(repo, rep)
     check_siblings(repo, rep)
+    rep.rule('R19f', 'TRIM-SET-REACHES-STRIP: every function with a `chars` '
+             'parameter hands it unchanged to str.strip / lstrip / rstrip')
+    check_trim_set_reaches_strip(repo, rep)
     uni = unimod.Universe(repo)
     check_callbacks_call_the_lambda(repo, rep, uni)
     check_python_rendering_of_values(repo, rep, uni)
